@@ -1,0 +1,17 @@
+//go:build verif
+
+package server
+
+import "github.com/enfein/mieru/v3/pkg/protocol"
+
+// VerifMux returns the multiplexer of a started server.
+// It only exists in builds with the "verif" tag (simulation harness).
+func VerifMux(s Server) *protocol.Mux {
+	ms, ok := s.(*mieruServer)
+	if !ok {
+		return nil
+	}
+	ms.mu.Lock()
+	defer ms.mu.Unlock()
+	return ms.mux
+}
